@@ -64,6 +64,37 @@ theorem C04_batch_contiguous (c : Cfg) (hc : CfgOK c) (n : Nat) (a : ATopic) (k 
   obtain ⟨_, _, _, ho, _⟩ := batchWrite_spec c hc.bs_le hc.bs_pos n a k h w hw long ps hl
   exact ho hok
 
+/-- the same three statements for entries of ANY size (since the fix that rejects an entry larger than `MAX_ALLOC`
+before any state changes): a rejected append or batch - whatever the reason, including "too large for any block" -
+leaves log, consumed index, count and invariant untouched, and a successful batch is one contiguous run -/
+theorem C04_rejected_append_keeps_topic_any_size (c : Cfg) (hc : CfgOK c) (n : Nat) (a : ATopic) (k : Nat) (h : TInv c n a k)
+    (w : ABlk) (hw : a.writer = some w) (long : Bool) (p : Pay)
+    (herr : (AEng.write c n a w long p).2.2 ≠ none) :
+    log (AEng.write c n a w long p).2.1 = log a ∧ (AEng.write c n a w long p).2.1.count = a.count ∧
+      TInv c (AEng.write c n a w long p).1 (AEng.write c n a w long p).2.1 k := by
+  obtain ⟨hi, _, hcnt, _, he⟩ := write_spec' c hc.meta_pos n a k h w hw long p
+  exact ⟨he herr, hcnt, hi⟩
+
+theorem C04_rejected_batch_keeps_topic_any_size (c : Cfg) (hc : CfgOK c) (n : Nat) (a : ATopic) (k : Nat) (h : TInv c n a k)
+    (w : ABlk) (hw : a.writer = some w) (long : Bool) (ps : List Pay)
+    (herr : (AEng.batchWrite c n a w long ps).2.2 ≠ none) :
+    log (AEng.batchWrite c n a w long ps).2.1 = log a ∧ (AEng.batchWrite c n a w long ps).2.1.count = a.count ∧
+      TInv c (AEng.batchWrite c n a w long ps).1 (AEng.batchWrite c n a w long ps).2.1 k := by
+  obtain ⟨hi, _, hcnt, _, he⟩ := batchWrite_spec' c hc.bs_le hc.bs_pos n a k h w hw long ps
+  exact ⟨he herr, hcnt, hi⟩
+
+theorem C04_batch_contiguous_any_size (c : Cfg) (hc : CfgOK c) (n : Nat) (a : ATopic) (k : Nat) (h : TInv c n a k)
+    (w : ABlk) (hw : a.writer = some w) (long : Bool) (ps : List Pay)
+    (hok : (AEng.batchWrite c n a w long ps).2.2 = none) :
+    log (AEng.batchWrite c n a w long ps).2.1 = log a ++ ps := by
+  obtain ⟨_, _, _, ho, _⟩ := batchWrite_spec' c hc.bs_le hc.bs_pos n a k h w hw long ps
+  exact ho hok
+
+/-- an oversized entry is rejected (the hypothesis `herr` above is met) and nothing at all changes -/
+example (c : Cfg) (n : Nat) (a : ATopic) (w : ABlk) (long : Bool) (p : Pay) (hbig : raw c p > c.maxAlloc) :
+    AEng.write c n a w long p = (n, a, some .invalidInput) := by
+  unfold AEng.write; simp [hbig]
+
 /-- the history with its rejected appends and batches removed -/
 def successfulOnly : List (AOp × Out) → List (AOp × Out)
   | [] => []
